@@ -62,26 +62,33 @@ def renderAll (exe : List Str) (ts : List GTok) : List Str := exe ++ ts.flatMap 
 
 /-! ### what a template spells -/
 
+/-- the default literal of a token (`=src`), read first; `$` is refused on anything but an output -/
+def specDefaultLit (r : Role) (a : ArgSpec) : Except Err (Option Lit) :=
+  match a.mod with
+  | .dflt s => (defaultValue s).map some
+  | .tmpl _ => if r == .output then .ok none else .error .templateOnInput
+  | _ => .ok none
+
+/-- the type written after `:`, or the default type: a file-system object for arguments, `str` for options -/
+def specBase (tbl : FmtTable) (opt : Option Str) (a : ArgSpec) : Except Err BaseTy :=
+  match a.types with
+  | some ts => typeOfStr tbl ts
+  | none => .ok (BaseTy.single (if opt.isNone then fsObject else .builtin "str".toList))
+
+/-- the field's default: `None` for `?`, an empty list for `*`, the coerced literal for `=` -/
+def specDefault (r : Role) (a : ArgSpec) (ty : Ty) (dflt : Option Lit) : Except Err Default :=
+  match a.mod, dflt with
+  | .optional, _ => .ok (Default.lit (.sc .none))
+  | .star, _ => .ok Default.emptyList
+  | .dflt _, some v => if r == .output then .error (.unmodelled "outarg-default") else (coerceDefault ty v).map Default.lit
+  | _, _ => .ok Default.noDefault
+
 /-- type and default of one `<…>` token.  The default literal is read first, then `$` is refused on inputs, then the type. -/
-def specAttrs (tbl : FmtTable) (opt : Option Str) (r : Role) (a : ArgSpec) : Except Err (Ty × Default) := do
-  let isOut := r == .output
-  let dflt : Option Lit ←
-    match a.mod with
-    | .dflt s => (defaultValue s).map some
-    | .tmpl _ => if isOut then pure none else .error .templateOnInput
-    | _ => pure none
-  let base ←
-    match a.types with
-    | some ts => typeOfStr tbl ts
-    | none => pure (BaseTy.single (if opt.isNone then fsObject else .builtin "str".toList))
+def specAttrs (tbl : FmtTable) (opt : Option Str) (r : Role) (a : ArgSpec) : Except Err (Ty × Default) :=
+  (specDefaultLit r a).bind fun dflt =>
+  (specBase tbl opt a).bind fun base =>
   let ty : Ty := { base := base, multi := a.mod == .plus || a.mod == .star, optional := a.mod == .optional }
-  let default : Default ←
-    match a.mod, dflt with
-    | .optional, _ => pure (Default.lit (.sc .none))
-    | .star, _ => pure Default.emptyList
-    | .dflt _, some v => if isOut then .error (.unmodelled "outarg-default") else (coerceDefault ty v).map Default.lit
-    | _, _ => pure Default.noDefault
-  pure (ty, default)
+  (specDefault r a ty dflt).map fun d => (ty, d)
 
 /-- the field objects of one `<…>` token with the given type and default: the field itself, preceded by the
     pass-through output of a `modify|` token -/
